@@ -32,7 +32,8 @@ import (
 	"github.com/taurusgroup/multi-party-sig/pkg/protocol"
 )
 
-var c07tpSchedules = []string{"fifo", "dup-each", "stale-before", "stale-after", "stale-both", "early-all", "early-next", "lifo"}
+// (a schedule named wire/<schedule> is <schedule> with every message crossing the wire format before Accept: pump.go Sim.Wire)
+var c07tpSchedules = []string{"fifo", "dup-each", "stale-before", "stale-after", "stale-both", "early-all", "early-next", "lifo", "wire/stale-both"}
 
 // c07Retransmit: what a retransmission looks like to the recipient -- the same wire bytes decoded again (a new object)
 func c07Retransmit(m *protocol.Message) *protocol.Message {
@@ -56,6 +57,9 @@ func (c *ctx) c07tpRun(sp tpSpec, ref *tpRef, sched string, seed int64) (*Sim, [
 	rng := rand.New(rand.NewSource(seed))
 	s := sp.Build(det)
 	s.AcceptTimeout = 60e9
+	if strings.HasPrefix(sched, "wire/") {
+		s.Wire, sched = true, strings.TrimPrefix(sched, "wire/")
+	}
 	for _, n := range s.Nodes {
 		if n.H == nil {
 			return s, nil, false
